@@ -83,6 +83,8 @@ CASES = [
      ("expect", ["(ext_local_get_version : L → String → (Rs.M (Option Nat)))", "let v ← ext_local_get_version self.«local» k"]), ("C", "f"),
      {"local.get_version": {"params": ["&str"], "ret": "Result<Option<u64>, Error>"}}),
     ("litfold", "fn f(x: u64) -> u64 { x << 8 * 7 }", ("expect", ["Rs.ushl 64 x 56"])),
+    # ---- round 10 (b8): a diverging macro as the whole tail of a Result-returning function
+    ("resultpanic", "fn f(x: u64) -> Result<u64, ()> { unimplemented!() }", ("expect", ["(Rs.panic : Rs.M Nat)"])),
     # ---- round 9 (b1819): atomics, byte-string literals, literal-bound &str, let-bound try_into, receiver-updating externals
     ("atomic", "pub struct C { pub n: AtomicU32, pub k: AtomicUsize }\nimpl C { fn f(&self) -> u32 { self.n.fetch_add(1, Ordering::AcqRel) } }",
      ("expect", ["def C.f (self : C) : C × Nat", "let old_1 := self.n", "{ self with n := (Rs.uwrapAdd Rs.U32_MAX old_1 1) }", "(self, old_1)"]), ("C", "f")),
